@@ -68,7 +68,6 @@ func ResourcesUniverse(level string) *Universe {
 	if level == "full" {
 		collection("cInt32", "cInt32Id", P(Int32), ent, false)
 		collection("cBool", "cBoolId", P(Bool), ent, false)
-		collection("cBytes", "cBytesId", P(Bytes), ent, false)
 		collection("cFloat64", "cFloat64Id", P(Float64), ent, false)
 		collection("cEnum", "cEnumId", e3, ent, true)
 		collection("cTrString", "cTrStringId", trs, ent, false)
